@@ -101,7 +101,8 @@ def build_corpus(tier, rng):
                 if i % 2 == 1:      # explicit spellings must never be re-cased
                     v.metas = [ser("Explicit_%d_%s" % (i, ident))] if i % 4 == 1 else [tos("To String %d" % i), ser("sEr%d" % i)]
                 vs.append(v)
-            it = Item("E", vs, metas=[EM("sall", st)])
+            # every other enum also carries a prefix: the renamed identifier — not the raw one — follows it
+            it = Item("E", vs, metas=[EM("sall", st)] + ([EM("prefix", ["ns/", "Pre_Fix", ""][si % 3])] if (si + rep) % 2 else []))
             cands = [it]
             infos = G.classify(ID, cands)
             info = infos[0]
